@@ -140,7 +140,7 @@ def _dynamic(ctx):
     from cij.util.fill import fill_cij
     from cij.io.traditional.elast_dat import apply_symetry_on_elast_data, ElastData, ElastVolumeData
     from cij.util import c_
-    per_system = ctx.pick(40, 5000)
+    per_system = ctx.pick(40, 25000)
     k = 0
     for system in laue.SYSTEMS:
         B = laue.invariant_basis(system)
